@@ -152,7 +152,7 @@ CLAIMED = {
              'route-distinguisher helpers, IPv4/IPv6 labeled unicast (label stacks of 1..3, withdraw form), VPNv4/VPNv6 (RD types 0/1/2, one label), '
              'EVPN ESI types 0..5 and route types 1-4 (MAC/IP presence, one or two labels), IPv4 flowspec (prefixes of every length, '
              '=,>,<,>=,<= on 1/2/4-octet values, components 3..8, 10, 11), and the MP_REACH / MP_UNREACH envelope with and without '
-             'link-local next hop for each family. Eleven defects found by these contracts were repaired in /repo; label 0 as last label is an open known finding.',
+             'link-local next hop for each family. Twelve defects found by these contracts were repaired in /repo.',
         note='shapes (list lengths, prefix-length sets for IPv6, one route per family in the envelope units) enumerated, values symbolic; '
              'EVPN route type 5, IPv6 flowspec, SR-TE and BGP-LS NLRI are outside the property or not under contract; flowspec bitmask components (9, 12) not covered',
         ref='5 C07'),
